@@ -1,2 +1,3 @@
 pub mod amf0;
 pub mod chunk;
+pub mod msg;
